@@ -204,6 +204,16 @@ def run(tier, seed, only=None):
     st.update({"thickness_cp": np.array([0.1, 0.2]), "radius_cp": np.array([0.3, 0.4])})
     groups.wiring_check(rep, lambda: TubeGroup(surface=st), "TubeGroup", fam, timeout)
     groups.wiring_check(rep, lambda: AssembleKGroup(surface=st), "AssembleKGroup", fam, timeout)
+    # the whole structure-only model of the documentation (geometry, tube sections, set-up, states, functionals)
+    from openaerostruct.structures.struct_groups import SpatialBeamAlone
+
+    sa = dict(st, twist_cp=np.zeros(2), struct_weight_relief=True)
+
+    def big_loads(ins):
+        return [bor(gt(x, 1e-6), lt(x, -1e-6)) for x in ins["total_loads"].ravel()]
+
+    groups.wiring_check(rep, lambda: SpatialBeamAlone(surface=sa), "SpatialBeamAlone(tube, weight relief)", fam, timeout,
+                        assume_for={"CreateRHS": big_loads}, abstract=("total_loads.total_loads", "vonmises.vonmises"))
     rep.bounds = {"cases": [c[0] for c in cfg]}
     rep.assumptions = ["real arithmetic", "sparse LU accuracy not modelled (the equation being solved is what is compared)",
                        "loads above the 1e-6 N zeroing threshold", "elements not parallel to the x axis (|e1 x xhat| != 0)"]
